@@ -440,9 +440,33 @@ def body_carry(ctx, case):
         ctx.nontrivial(("carry", C, tuple((k_, tuple(p_)) for k_, p_ in lines), k, scale, seed, thr))
 
 
+# ---------------------------------------------------------------- the complete small grid with the LSTM LM behind the real wrapper
+def lstm_grid_cases(tier):
+    import itertools
+    from vlib import ctc as _ctc
+    comps = [c for c in itertools.product(range(5), repeat=3) if sum(c) == 4]
+    out = []
+    for T in (1, 2, 3):
+        for rows in itertools.product(comps, repeat=T):
+            for k in (1, 2, 3):
+                for eos in (True, False):
+                    if T == 3 and tier == "quick" and not (k == 2 and eos):
+                        continue        # quick: the three-frame grid with beam width 2 and end-of-line modelling only
+                    out.append((rows, k, eos))
+    return out
+
+
+def body_lstm_grid(ctx, case):
+    from vlib import ctc as _ctc
+    rows, k, eos = case
+    M = np.array([[math.log(x / 4.0) if x else _ctc.NEG for x in r] for r in rows], dtype=np.float64)
+    body(ctx, (("grid", M), k, "default", 1.0, 0.0, eos, None, len(rows), "lstm"))
+
+
 UNITS = [
     Unit("hashlm", "given", body=body, strategy=strat("hash"), quick=3000, thorough=40000, render=render_case),
-    Unit("lstmlm", "given", body=body, strategy=strat("lstm"), quick=600, thorough=3000, render=render_case),
+    Unit("lstmlm", "given", body=body, strategy=strat("lstm"), quick=600, thorough=6000, render=render_case),
+    Unit("lstm_grid", "enum", body=body_lstm_grid, cases=lstm_grid_cases, exhaustive=True),
     Unit("page_decoder", "given", body=body_page_decoder, strategy=strat_page_decoder, quick=400, thorough=6000),
     Unit("carry_over", "given", body=body_carry, strategy=strat_carry, quick=400, thorough=6000),
 ]
